@@ -86,6 +86,32 @@ def search(chk, broken):
                                                                  f'requested range is missing',
                                         {'op': 'rows-metric', 'range_m': Rm, 'tail_wind_mps': wv, 'mv_mps': shot.ammo.mv >> U.MPS, 'bc': shot.ammo.dm.BC, 'rows': len(rows)}))
             break
+    # the bottom of the admitted domain: recording steps AT or just above the maximum integration step (0.5 ft by default), where one
+    # integration advance over the ground (0.25 ft x ground speed / air speed) is a large part of a recording step — tail winds make it more
+    # than half of it.  Exactly one row per multiple of the step, each at its multiple.
+    for it in range(12 if (chk.tier == 'quick' and not broken) else 400):
+        if chk.over():
+            break
+        st = rng.choice([0.5, 0.5, 0.505, 0.52, rng.uniform(0.5, 0.56)])
+        R = st * rng.randint(40, 160)
+        wv = rng.uniform(10, 45)
+        shot = pbc.Shot(pbc.Weapon(U.Inch(2), 0), pbc.Ammo(pbc.DragModel(rng.uniform(0.1, 0.5), rng.choice([pbc.TableG1, pbc.TableG7])), U.FPS(rng.uniform(700, 3000))),
+                        winds=[pbc.Wind(U.MPH(wv), U.Degree(rng.choice([0.0, 0.0, 180.0, rng.uniform(-40, 40)])))])
+        try:
+            rows = calc0.fire(shot, U.Foot(R), U.Foot(st)).trajectory
+        except pbc.RangeError:
+            continue
+        evals += 1
+        ds = [r.distance >> U.Foot for r in rows]
+        nexp = int(round(R / st)) + 1
+        bad = next((k for k in range(min(len(ds), nexp)) if abs(ds[k] - k * st) > 1e-7), None)
+        if bad is not None or len(ds) < nexp or len(ds) > nexp + 1:
+            chk.failures.append(Failure('rows-at-multiples:step-near-integration-step',
+                                        f'range {R:.3f} ft, recording step {st:.4f} ft (integration step 0.25 ft, maximum 0.5 ft), wind {wv:.0f} mph from {shot.winds[0].direction_from >> U.Degree:.0f} deg: '
+                                        f'{len(ds)} rows for {nexp} multiples' + (f'; row {bad} is at {ds[bad]:.4f} ft instead of {bad * st:.4f} ft' if bad is not None else ''),
+                                        {'op': 'rows-small-step', 'range_ft': R, 'step_ft': st, 'wind_mph': wv, 'wind_from_deg': shot.winds[0].direction_from >> U.Degree,
+                                         'mv_fps': shot.ammo.mv >> U.FPS, 'bc': shot.ammo.dm.BC, 'rows': len(ds), 'first_bad_row': bad}))
+            break
     for it in range(n):
         if chk.over():
             break
